@@ -35,6 +35,10 @@ def scenarios(draw):
     strat = src.choice(STRATEGIES)
     ms = src.choice([None, "exact", "precise", "default", "loose"])
     delta = S.DELTAS[ms or S.DATA_DEFAULT_STRATEGY[dt]]
+    # an explicit --delta replaces the tolerance of the preset (0 is a value like any other)
+    xdelta = src.choice([None, None, None, 0, 0, 2, 9])
+    if xdelta is not None:
+        delta = xdelta
     k = 0
     for g, t in S.transcripts_of(sc):
         for _ in range(src.int(2, 8)):
@@ -72,6 +76,8 @@ def scenarios(draw):
                   "--no_model_construction"]
     if ms:
         sc["opts"] += ["--matching_strategy", ms]
+    if xdelta is not None:
+        sc["opts"] += ["--delta", str(xdelta)]
     sc["strategy"] = strat
     sc["delta"] = delta
     return sc
@@ -164,6 +170,23 @@ def evaluate(case, ctx):
                     ctx.violation("C14:splice-site-of-unknown-provenance:" + strat,
                                   {"read": b["name"], "side": side, "site": s, "orig": orig, "bed": blocks,
                                    "isoforms": isos, "delta": delta}, case)
+            # an intron of the read that comes back with its ends moved by a few bases: unless the strategy corrects
+            # intron shifts as well, this is the correction of a noisy junction and stays within delta
+            own_introns = [(orig[i][1] + 1, orig[i + 1][0] - 1) for i in range(len(orig) - 1)]
+            for i in range(len(blocks) - 1):
+                ci = (blocks[i][1] + 1, blocks[i + 1][0] - 1)
+                if ci in own_introns:
+                    continue
+                near = [o for o in own_introns if abs(o[0] - ci[0]) <= 12 and abs(o[1] - ci[1]) <= 12]
+                if len(near) != 1:
+                    continue
+                dl, dr = ci[0] - near[0][0], ci[1] - near[0][1]
+                if strat == "all":
+                    continue        # 'all' also corrects intron shifts (tolerance max_intron_shift, not delta)
+                if max(abs(dl), abs(dr)) > delta:
+                    ctx.violation("C14:junction-moved-further-than-delta:" + strat,
+                                  {"read": b["name"], "own_intron": near[0], "corrected_intron": ci, "delta": delta,
+                                   "opts": sc["opts"]}, case)
         ctx.cls("strategy=" + strat, "changed>0" if changed else "changed=0")
         if changed:
             ctx.mark_nontrivial(case_hash(case))
